@@ -32,7 +32,8 @@ InitObs(P) ==
     prio  |-> EmptyFn,      \* batch -> <<base, n, tb>> reported in the current selection round
     prov  |-> EmptyFn,      \* lazy future -> number of provider runs
     dreg  |-> EmptyFn,      \* C12: (function, key) -> the in-flight deduplicated task, as the property defines it
-    aband |-> {},           \* tasks given up by a runaway-recursion reset (their computation ended with RuntimeError)
+    aband |-> {},           \* tasks given up because their computation was ended from outside (runaway-recursion reset, raising flush())
+    abandfl |-> {},         \* ... those of them given up because BatchBase.flush() itself raised
     fl    |-> <<>>,         \* compositions (sets of items) of the scheduler's flushes so far
     ovf   |-> FALSE,        \* a synchronous call has just failed with the runaway-recursion RuntimeError (scheduler reset)
     nflush |-> 0,           \* scheduler flushes of the current outermost call
@@ -243,7 +244,8 @@ Step(S, e) ==
             \* of the computation that is running now; otherwise the batch was retained from an earlier computation.
             \* The clause name says how the earlier owner of the stale requests ended.
             own1 == IF Len(B.items) > 0 THEN S.iinfo[B.items[1]].own ELSE 0
-            staleWhy == IF own1 \in S.aband THEN "abandoned"
+            staleWhy == IF own1 \in S.abandfl THEN "flushraise"
+                        ELSE IF own1 \in S.aband THEN "overflow"
                         ELSE IF FutDone(S, own1) /\ IsX(S.fut[own1].v) /\ (S.fut[own1].v.n = 70000 \/ (S.fut[own1].v.n >= 90000 /\ S.fut[own1].v.n < 91000))
                              THEN "ctxfail" ELSE "other"
             stale == Len(B.items) > 0 /\ \A i \in 1..Len(B.items) : S.iinfo[B.items[i]].comp < S.ncall
@@ -328,7 +330,8 @@ Step(S, e) ==
     [] e.e = "SyncEnd" ->
         LET S1 == [S EXCEPT !.wait = IF @ # <<>> THEN Front(@) ELSE @, !.sync = IF @ # <<>> THEN Front(@) ELSE @,
                             !.ovf = (e.v = VX(80000)),
-                            !.aband = IF IsEscape(e.v) THEN @ \cup {t \in Reach(S, e.a) \cap Tasks(S) : ~FutDone(S, t)} ELSE @] IN
+                            !.aband = IF IsEscape(e.v) THEN @ \cup {t \in Reach(S, e.a) \cap Tasks(S) : ~FutDone(S, t)} ELSE @,
+                            !.abandfl = IF IsEscape(e.v) /\ e.v.n # 80000 THEN @ \cup {t \in Reach(S, e.a) \cap Tasks(S) : ~FutDone(S, t)} ELSE @] IN
         [S |-> S1,
          bad |-> IfBad(e.v # VX(80000) => e.b = e.t, "C08.active") \cup        \* (after the runaway-recursion reset nothing is active)
                  IfBad(~IsEscape(e.v) => (FutDone(S, e.a) /\ S.fut[e.a].v = e.v /\ (IsX(e.v) => S.fut[e.a].u = e.u)), "C01.sync") \cup
@@ -340,7 +343,8 @@ Step(S, e) ==
             reached == Reach(S, root)
             rootDone == FutDone(S, root)
             S1 == [S EXCEPT !.wait = IF @ # <<>> THEN Front(@) ELSE @,
-                            !.aband = IF IsEscape(e.v) THEN @ \cup {t \in Tasks(S) : ~FutDone(S, t)} ELSE @]
+                            !.aband = IF IsEscape(e.v) THEN @ \cup {t \in Tasks(S) : ~FutDone(S, t)} ELSE @,
+                            !.abandfl = IF IsEscape(e.v) /\ e.v.n # 80000 THEN @ \cup {t \in Tasks(S) : ~FutDone(S, t)} ELSE @]
         IN [S |-> S1,
             bad |-> IfBad(e.a = 0, "C08.active") \cup
                     IfBad(e.k = 0, "C08.clean") \cup
